@@ -48,6 +48,8 @@ def check(prog, run):
     obu_header_rule(prog, run, "R14")
     run.rule("R15", "the AV1 sequence header is found wherever it stands among the OBUs of a temporal unit, and only it is parsed (tabulated over leading OBU sequences)")
     av1_seq_position_rule(prog, run, "R15")
+    run.rule("R16", "AV1 leb128() (OBU sizes): value and length as in AV1 4.10.5 for all tabulated byte strings, zero-padded encodings accepted")
+    leb128_rule(prog, run, "R16")
     run.rule("R13", "parameter-set slots by NAL type: for all 256 header bytes the unit lands in the slot of its specification type only; first wins (H.264, H.265)")
     parameter_set_table_rule(prog, run, "R13")
     run.rule("R12", "AV1 bit reader primitives (read_bit, read_bits, skip_bits) and the uvlc helper behave as the descriptors f(n) / uvlc() of the AV1 specification (complete tabulation of their finite state)")
@@ -133,6 +135,7 @@ def check(prog, run):
     slots(cx, run)
     # ---- R5
     audio_entry(moov, run)
+    audio_config_writers(cx, run)
     # ---- R6
     for name, segs in (("progressive", moov), ("init", _init(u))):
         if segs is None:
@@ -360,6 +363,26 @@ def slots(cx, run):
                       "slot `%s` is assigned without the guards `still empty` / `type == %d` (guards: %s)" % (field, ty, sigs[-4:]), mir.loc_of(node))
             run.check(unit, "R3", "%s.%s verbatim" % (fn, field), "slot := the iterated unit", "slot is assigned %s" % sym.show(v)[:100], mir.loc_of(node))
     run.floor("R4", n, 5, "slot assignments")
+
+
+def audio_config_writers(cx, run):
+    """the audio configuration the sample entry and the decoder configuration are computed from is the one the builder handed over:
+    the writer's audio-track field is stored only by its constructor / enabling function, never by a frame-writing or finalising
+    method (a value re-derived from the stream would replace what was configured)"""
+    u = cx.u
+    fld = None
+    for p, b in cx.live.items():
+        if mir.norm(p).endswith("Mp4Writer::enable_audio"):
+            fs = sorted({pa[0] for (r, pa) in cx.st.sum.get(p, ()) if r == ("arg", 1) and pa})
+            if len(fs) == 1:
+                fld = fs[0]
+    if fld is None:
+        run.bad("R5", "anchor enable_audio", "cannot find the function that stores the writer's audio configuration")
+        return
+    others = sorted(mir.norm(p) for p, b in cx.live.items() if "Mp4Writer" in b.get("impl_self", "") and not mir.norm(p).endswith("::enable_audio") and not mir.norm(p).endswith("::new")
+                    and any(r == ("arg", 1) and pa[:1] == (fld,) for (r, pa) in cx.st.sum.get(p, ())))
+    run.check(not others, "R5", "audio configuration set once", "self.%s is stored by enable_audio only" % fld,
+              "the writer's audio configuration `%s` is also modified by %s: the sample entry and decoder configuration no longer carry what was configured" % (fld, others))
 
 
 def audio_entry(moov, run):
@@ -781,6 +804,55 @@ def obu_header_rule(prog, run, rule):
               "" if bad is None else "OBU header byte 0x%02x (%s): parse_obu_header gives %s, AV1 5.3.1-5.3.2 prescribes %s" % (bad[0], ("obu_size %d" % bad[2]) if bad[1] else "no size field", bad[3], bad[4]),
               mir.loc_of(u.bodies[fns[0]]))
     run.floor(rule, n, 512, "OBU header evaluations")
+
+
+def leb128_rule(prog, run, rule):
+    """AV1 4.10.5 leb128(): value = sum of (byte & 0x7f) << 7i over the bytes up to and including the first one without the top bit; at most
+    8 bytes; the encoding may be padded with zero groups (`8C 80 80 00` is 12: encoders with fixed-width size fields write that).
+    `read_leb128` is tabulated over every byte string of length 1..4 over {00, 01, 7F, 80, 81, FF} and over padded 5..8-byte forms:
+    (value, length) as the specification computes them, None iff the string ends before a terminating byte."""
+    from .. import minieval as E
+    import itertools
+    u = prog.lib
+    fns = [k for k in u.bodies if mir.norm(k) == "codec::av1::read_leb128" and not u.bodies[k]["in_test_cfg"]]
+    if len(fns) != 1:
+        run.bad(rule, "anchor read_leb128", "LEB128 reader not found")
+        return
+    alpha = (0x00, 0x01, 0x7F, 0x80, 0x81, 0xFF)
+    cases = [list(t) for n_ in range(1, 5) for t in itertools.product(alpha, repeat=n_)]
+    for k in range(4, 8):
+        cases.append([0x80] * k + [0x00])
+        cases.append([0x85] + [0x80] * (k - 1) + [0x00])
+        cases.append([0xFF] * k + [0x7F])
+    n = 0
+    bad = None
+    try:
+        for data in cases:
+            want = None
+            val = 0
+            for i, b in enumerate(data[:8]):
+                val |= (b & 0x7F) << (7 * i)
+                if not b & 0x80:
+                    want = (val & 0xFFFFFFFFFFFFFFFF, i + 1)
+                    break
+            m = E.Machine(u)
+            m.lenient = True
+            r = m.call_fn(fns[0], [E.Bytes(dict(enumerate(data + [0xAA] * 0)), exact=len(data))])
+            n += 1
+            if not (isinstance(r, E.Adt) and r.name == "Option"):
+                raise E.Unsupported("result outside the model: %r" % (r,))
+            got = None
+            if r.variant == 1:
+                pl = r.fields[0]
+                got = tuple(pl) if isinstance(pl, tuple) else (tuple(pl.fields) if isinstance(pl, E.Adt) else pl)
+            if got != want and bad is None:
+                bad = (data, got, want)
+    except E.Unsupported as ex:
+        run.bad(rule, "leb128 table", "cannot tabulate read_leb128 (fail closed): %s" % ex)
+        return
+    run.check(bad is None, rule, "leb128 table", "(value, length) as AV1 4.10.5 computes them, padded encodings included (%d byte strings)" % n,
+              "" if bad is None else "read_leb128(%s) gives %s, AV1 4.10.5 gives %s" % (" ".join("%02X" % b for b in bad[0]), bad[1], bad[2]), mir.loc_of(u.bodies[fns[0]]))
+    run.floor(rule, n, 1500, "byte strings evaluated")
 
 
 def av1_seq_position_rule(prog, run, rule):
